@@ -219,8 +219,14 @@ def fam_num(rng, sid0, n):
             else:
                 vs.append(Var(UINT, 1, RW, None, mem=b"\x07"))
         cmd = Cmd("+N", hw=rng.random() < 0.6, need_all=rng.random() < 0.3, vars=vs)
+        evc = Cmd("+E", ht=rng.random() < 0.5, hr=rng.random() < 0.5, vars=[Var(UINT, 1, RW, "e", mem=b"\x01"), Var(INT, 2, RW, None, mem=b"\x02\x00")])
         half = rng.choice([48, 64, 80])
-        sc = Scenario(sid0 + i, [cmd], qcap=1, bufsize=2 * half, grain=rng.choice(["compact", "compact", "step"]), meta={"family": "fam_num"})
+        sc = Scenario(sid0 + i, [cmd, evc], qcap=2, bufsize=2 * half, grain=rng.choice(["compact", "compact", "step"]), meta={"family": "fam_num"})
+        midline = nvars >= 2 and rng.random() < 0.5
+        if midline:
+            # an event is triggered from a variable's write callback, i.e. it is processed between two arguments of the same line
+            for v in vs:
+                v.vw = True
         texts = num_texts(rng, vtype, size)
         # long digit strings up to the capacity
         for L in (half - 2 - 2 * pos, half - 1 - 2 * pos, half - 2 * pos, half + 1):
@@ -232,8 +238,16 @@ def fam_num(rng, sid0, n):
             args = ["7"] * nvars
             args[pos] = tx
             lines.append(("AT+N=" + ",".join(args) + rng.choice(["\n", "\r\n"])).encode())
-        line_block(sc, lines)
-        out.append(sig(sc, vtype, size, acc, nvars, pos))
+        if midline:
+            for l in lines:
+                sc.vs(0, 0, "w", ret=0, act="trig:1:%s" % rng.choice("rt"))
+                for k in range(1, nvars):
+                    sc.vs(0, k, "w", ret=0)
+                sc.feed(l)
+                sc.settle(4000)
+        else:
+            line_block(sc, lines)
+        out.append(sig(sc, vtype, size, acc, nvars, pos, midline))
     return out
 
 
@@ -266,9 +280,18 @@ def fam_desc(rng, sid0, n):
         for c in cmds:
             groups[rng.randrange(len(groups))][1].append(c)
         groups = [g for g in groups if g[1]]
-        # capacity around the longest advertised line / test text
+        # capacity around the longest advertised line / around the TEST text of one of the commands
         longest = max(len(c.name) for c in cmds) + 6
-        half = rng.choice([longest - 1, longest, longest + 1, longest + 2, 24, 40, 96])
+
+        def test_len(c):
+            n = len(c.name) + 1
+            for k, v in enumerate(c.vars):
+                ty = {INT: "INT", UINT: "UINT", HEX: "HEX"}.get(v.type)
+                ty = (ty + str(8 * v.size)) if ty else ("HEXBUF" if v.type == BUFHEX else "STRING")
+                n += (1 if k else 0) + 1 + (len(v.name) + 1 if v.name is not None else 0) + len(ty) + 4 + 1
+            return n + (1 + len(c.desc) if c.desc is not None else 0)
+        tl = test_len(rng.choice(cmds))
+        half = rng.choice([longest - 1, longest, longest + 1, longest + 2, tl - 1, tl, tl + 1, tl + 2, tl, tl + 1, 24, 40, 96])
         half = max(half, 6, (ncmd + 4) // 4)
         sc = Scenario(sid0 + i, groups, qcap=2, bufsize=2 * half + rng.choice([0, 1]), grain=rng.choice(["step", "compact"]),
                       meta={"family": "fam_desc"})
@@ -311,9 +334,34 @@ def str_arg(rng, nplain, nesc, alphabet=None):
     return txt + b'"', dec
 
 
+def buf_at_capacity(rng, sid):
+    """Shared buffer: the byte behind the command half is the first byte of the event half. An event first leaves hex digits there;
+    then hex / string arguments of length capacity-1, capacity, capacity+1 arrive (C05 / C06: an argument that does not fit is refused, never decoded)."""
+    acap = rng.choice([8, 10, 16])
+    vtype = rng.choice([BUFHEX, BUFHEX, STRING])
+    size = rng.choice([acap // 2, acap // 2 + 1, acap, 2 * acap])
+    var = Var(vtype, size, RW, "b", vw=rng.random() < 0.5, mem=bytes(size))
+    cmd = Cmd("+B", hw=rng.random() < 0.5, vars=[var])
+    ev = Cmd("+U", hr=True)
+    sc = Scenario(sid, [cmd, ev], qcap=1, bufsize=2 * acap, grain="step", meta={"family": "fam_buf"})
+    for _ in range(4):
+        sc.hs(1, "r", "e", ret=R_DATA_OK, data=rng.choice([b"1F", b"AB", b"0", b",", b"", b"\"", b"7f3"]))
+    for L in (acap - 1, acap, acap, acap + 1):
+        sc.trig(1, "r").settle(3000)
+        if vtype == BUFHEX:
+            arg = "".join(rng.choice("0123456789abcdef") for _ in range(L)).encode()
+        else:
+            arg = b'"' + b"a" * (L - 1) if rng.random() < 0.5 else b'"' + b"a" * (L - 2) + b'"'
+        sc.feed(b"AT+B=" + arg + b"\n").settle(3000)
+    return sig(sc, "cap", acap, vtype, size)
+
+
 def fam_buf(rng, sid0, n):
     out = []
     for i in range(n):
+        if i % 4 == 3:
+            out.append(buf_at_capacity(rng, sid0 + i))
+            continue
         vtype = rng.choice([BUFHEX, STRING])
         size = rng.choice(list(range(1, 13)) + [16, 31, 32, 33, 63, 64])
         acc = rng.choice([RW, RW, WO, RO])
@@ -989,4 +1037,97 @@ def fam_implicit(rng, sid0, n):
             if rng.random() < 0.5:
                 sc.flag_group(len(sc.groups) - 1, rng.random() < 0.5)
         out.append(sig(sc, base, imp_disabled, grp_disabled, len(others)))
+    return out
+
+
+# --------------------------------------------------------------------------- C08: non-interference of write-only contents (paired runs)
+
+def fam_wo_twins(rng, sid0, n):
+    """Scenarios of one key are identical except for what the write-only variables hold; output and handler invocations must be identical.
+    The capacity sweeps around the length of the READ text so that 'does it fit' decisions are exercised too."""
+    out = []
+    while len(out) < n:
+        key = rng.randrange(1 << 30)
+        r2 = random.Random(key)
+        nv = r2.randint(1, 4)
+        spec = []
+        for _ in range(nv):
+            vtype = r2.choice([INT, UINT, HEX, BUFHEX, STRING, STRING])
+            size = r2.choice([1, 2, 4]) if vtype in (INT, UINT, HEX) else r2.choice([4, 8, 20])
+            spec.append((vtype, size, r2.choice([RW, WO, WO, RO]), r2.choice([None, "v"]), rt_mem(r2, vtype, size)))
+        if not any(a == WO for _, _, a, _, _ in spec):
+            spec[r2.randrange(nv)] = spec[0][:2] + (WO,) + spec[0][3:]
+        est = 4 + sum({INT: 4, UINT: 4, HEX: 2 + 2 * s}.get(t, 2 * s if t == BUFHEX else 2) + 1 for t, s, a, _, _ in spec)
+        hr, ht = r2.random() < 0.4, r2.random() < 0.3
+        for cap in r2.sample(range(max(6, est - 6), est + 10), 3):
+            lines = [b"AT+W?\n", b"AT+W=?\n", b"AT+W?\r\n"]
+            for variant in range(2):
+                vs = []
+                for (t, s, a, nm, mem) in spec:
+                    m2 = mem
+                    if a == WO and variant == 1:
+                        m2 = rt_mem(rng, t, s) if t != STRING else (b"x" * rng.randint(0, s - 1)).ljust(s, b"\0")
+                    elif a == WO and t == STRING:
+                        m2 = b"\0" * s
+                    vs.append(Var(t, s, a, nm, mem=m2))
+                cmd = Cmd("+W", hr=hr, ht=ht, hw=True, vars=vs)
+                sc = Scenario(sid0 + len(out), [cmd], qcap=2, bufsize=2 * cap, grain="compact", meta={"family": "fam_wo_twins"})
+                sc.note("conf_%d%02d_%d" % (key % 10000000, cap, variant))
+                for l in lines:
+                    sc.feed(l).settle(8000)
+                sc.trig(0, "r").settle(8000)
+                sc.trig(0, "t").settle(8000)
+                out.append(sig(sc, key, cap, variant))
+    return out[:n]
+
+
+# --------------------------------------------------------------------------- C19 / C06: capacities exactly around the TEST and READ texts
+
+def py_test_len(c):
+    n = len(c.name) + 1
+    for k, v in enumerate(c.vars):
+        ty = {INT: "INT", UINT: "UINT", HEX: "HEX"}.get(v.type)
+        ty = (ty + str(8 * v.size)) if ty else ("HEXBUF" if v.type == BUFHEX else "STRING")
+        n += (1 if k else 0) + 1 + (len(v.name) + 1 if v.name is not None else 0) + len(ty) + 4 + 1
+    return n + (1 + len(c.desc) if c.desc is not None else 0)
+
+
+def py_read_len(c):
+    n = len(c.name) + 1
+    for k, v in enumerate(c.vars):
+        n += 1 if k else 0
+        if v.type in (INT, UINT):
+            x = int.from_bytes(v.mem, "little", signed=(v.type == INT))
+            n += 1 if v.acc == WO else len(str(x))
+        elif v.type == HEX:
+            n += 2 + 2 * v.size
+        elif v.type == BUFHEX:
+            n += 2 * v.size
+        else:
+            body = b"" if v.acc == WO else v.mem.split(b"\0")[0]
+            n += 2 + sum(2 if ch in b'"\\\n' else 1 for ch in body)
+    return n
+
+
+def fam_textfit(rng, sid0, n):
+    out = []
+    for i in range(n):
+        nv = rng.randint(1, 3)
+        vs = []
+        for _ in range(nv):
+            vtype = rng.choice([INT, UINT, HEX, BUFHEX, STRING])
+            size = rng.choice([1, 2, 4]) if vtype in (INT, UINT, HEX) else rng.choice([2, 3, 5])
+            vs.append(Var(vtype, size, rng.choice([RW, RW, RO, WO]), rng.choice([None, "v", "nm"]), mem=rt_mem(rng, vtype, size)))
+        cmd = Cmd(rng.choice(["+X", "+LONGER", "Q"]), desc=rng.choice([None, None, "d", "some text"]), hr=rng.random() < 0.3, ht=rng.random() < 0.3, hw=True, vars=vs)
+        which = "test" if i % 2 == 0 else "read"
+        L = py_test_len(cmd) if which == "test" else py_read_len(cmd)
+        cap = max(6, L + [-1, 0, 1, 2][(i // 2) % 4])
+        shared = rng.random() < 0.5
+        sc = Scenario(sid0 + i, [cmd], qcap=1, bufsize=2 * cap if shared else cap, usize=-1 if shared else cap, grain=rng.choice(["step", "compact"]),
+                      meta={"family": "fam_textfit"})
+        for l in ([b"AT" + cmd.name.encode() + b"=?\n", b"AT" + cmd.name.encode() + b"=?\r\n"] if which == "test" else [b"AT" + cmd.name.encode() + b"?\n", b"AT" + cmd.name.encode() + b"?\r\n"]):
+            sc.feed(l).settle(6000)
+        sc.trig(0, "t" if which == "test" else "r").settle(6000)
+        sc.feed(b"AT" + cmd.name.encode() + (b"=?\n" if which == "read" else b"?\n")).settle(6000)
+        out.append(sig(sc, which, L, cap, shared, cmd.desc is None))
     return out
